@@ -295,6 +295,7 @@ class SolverActor:
         self.synced_calls = 0
         self.desync = None
         self.delivered = []        # items delivered through OnEndIteration since the last sync
+        self.notified = []         # (op_no, point) of every item ever delivered through OnEndIteration
         self.aborted = None        # reason the actor stopped being driven (exhausted, op_raised, ...)
         self.solve_info = []       # per solve op: dict
         self.exhausted = False
@@ -331,9 +332,25 @@ class SolverActor:
                     self.parameters = w.shared_params[share]     # one SolverParameters object used for several solvers
                     w.fired["solver_on_shared_parameters_object"] += 1
                 else:
-                    self.parameters = SolverParameters(eps=p.get("eps", 0.01), r=p["r"], itersLimit=p.get("itersLimit", 20000),
-                                                       evolventDensity=p.get("evolventDensity", 10),
-                                                       refineSolution=p.get("refineSolution", False))
+                    dens = p.get("evolventDensity", 10)
+                    dt = self.spec.get("density_type")
+                    if dt == "np.int64":
+                        dens = np.int64(dens)
+                    elif dt == "np.int32":
+                        dens = np.int32(dens)
+                    kw = dict(eps=p.get("eps", 0.01), r=p["r"], itersLimit=p.get("itersLimit", 20000), evolventDensity=dens,
+                              refineSolution=p.get("refineSolution", False))
+                    if self.spec.get("start_point") is not None:
+                        # the documented startPoint parameter (the method ignores it at this commit)
+                        kw["startPoint"] = Point(np.array(self.spec["start_point"], dtype=np.double), [])
+                    if self.spec.get("params_set") == "attr":
+                        # the user builds a default object and then assigns its public fields
+                        self.parameters = SolverParameters()
+                        for k2, v2 in kw.items():
+                            setattr(self.parameters, k2, v2)
+                        w.fired["parameters_set_by_attribute_assignment"] += 1
+                    else:
+                        self.parameters = SolverParameters(**kw)
                     if share:
                         w.shared_params[share] = self.parameters
                 self.solver = Solver(self.problem, parameters=self.parameters)
@@ -369,6 +386,18 @@ class SolverActor:
             self.world.log("evq", self.aid, "image %s -> %s" % (fhex(op["x"]), vhex(r)))
             return as_floats(r)
         how = op.get("as", "array")
+        if how == "best":
+            # the live array of the current best point (a listener mapping the optimum back onto the curve)
+            try:
+                arg = self.solver.GetResults().bestTrials[0].point.floatVariables
+                len(arg)
+            except BaseException:
+                return None
+            if len(arg) != self.N:
+                return None
+            r = (ev.GetInverseImage if q == "inverse" else ev.GetPreimages)(arg)
+            self.world.log("evq", self.aid, "%s best -> %s" % (q, fhex(r)))
+            return float(r)
         if how == "int_list":
             arg = [int(v) for v in op["y"]]
         elif how == "int_array":
@@ -490,6 +519,8 @@ class SolverActor:
                     items = []
                 self.delivered.extend(items)
                 info = len(items)
+                for it in items:
+                    self.notified.append((self.op_no, _item_point(it)))
             elif name == "OnMethodStop":
                 self._resolve_pending()
             self.bracket_events.append((seq, name, info))
@@ -876,6 +907,12 @@ class World:
                 a.solver.DoLocalRefinement(int(op["n"]))
             elif kind == "evq":
                 outcome["evq"] = a.query_evolvent(op)
+            elif kind == "setp":
+                # the user changes a public field of the SolverParameters object between calls (e.g. raises the budget
+                # and resumes); only generated for solvers that own their parameters object
+                setattr(a.parameters, op["field"], op["value"])
+                a.params[op["field"]] = op["value"]
+                self.fired["parameter_changed_between_calls"] += 1
             else:
                 raise HarnessError("unknown op %r" % kind)
         except HarnessError:
